@@ -813,6 +813,26 @@ Qed.
 Definition disc_names (rm : roommap) (sid : str) : list pv :=
   map fst (filter (fun rb => match bd_get (snd rb) sid with Some _ => true | None => false end) rm).
 
+(* the release part of basic_disconnect *)
+Lemma disc_release_rooms m sid ns : rooms (disc_release m sid ns) = rooms m.
+Proof. unfold disc_release. destruct (is_pending _ sid ns); reflexivity. Qed.
+Lemma disc_release_callbacks m sid ns : callbacks (disc_release m sid ns) = adel str_eqb (callbacks m) sid.
+Proof. unfold disc_release. destruct (is_pending _ sid ns); reflexivity. Qed.
+Lemma disc_release_pending_nodup m sid ns :
+  NoDup (map fst (pending m)) -> NoDup (map fst (pending (disc_release m sid ns))).
+Proof.
+  intro Hp. unfold disc_release. cbn [rooms pending callbacks].
+  destruct (is_pending _ sid ns); cbn [rooms pending callbacks]; [|exact Hp].
+  destruct (match aget str_eqb (pending m) ns with Some l => remove_first l sid | None => [] end).
+  - apply nodup_adel. exact Hp.
+  - apply (e_nodup_aset str_eqb str_eqb_eq). exact Hp.
+Qed.
+Lemma disc_release_wf m sid ns : WF m -> WF (disc_release m sid ns).
+Proof.
+  intro H. assert (Hp : NoDup (map fst (pending m))) by apply H.
+  eapply WF_ext; [apply disc_release_rooms|apply disc_release_pending_nodup; exact Hp|exact H].
+Qed.
+
 Lemma mgr_disconnect_parts m sid ns rm :
   ns_rooms m ns = Some rm ->
   let m1 := leave_pairs ns (map (fun r => (sid, r)) (disc_names rm sid)) m in
@@ -824,7 +844,7 @@ Proof.
   assert (Hm1 : fold_left (fun m r => leave_room m sid ns r) (disc_names rm sid) m = m1).
   { unfold m1, leave_pairs. rewrite fold_left_map'. reflexivity. }
   unfold mgr_disconnect. rewrite E. unfold disc_names in Hm1. rewrite Hm1. clearbody m1.
-  cbv zeta. cbn [rooms pending callbacks].
+  unfold disc_release. cbv zeta. cbn [rooms pending callbacks].
   destruct (is_pending _ sid ns); cbn [rooms pending callbacks].
   - split; [reflexivity|]. split; [reflexivity|]. intro Hp.
     destruct (match aget str_eqb (pending m1) ns with Some l => remove_first l sid | None => [] end).
@@ -855,13 +875,14 @@ Lemma mgr_disconnect_spec m sid ns :
   let m' := mgr_disconnect m sid ns in
   WF m' /\ rem_eq m m' (fun ns' _ s' => str_eqb ns ns' && str_eqb sid s') /\
   (ns_rooms m ns <> None -> callbacks m' = adel str_eqb (callbacks m) sid) /\
-  (ns_rooms m ns = None -> m' = m).
+  (ns_rooms m ns = None -> m' = disc_release m sid ns).
 Proof.
   intros [HS HM] m'. subst m'.
   destruct (ns_rooms m ns) as [rm|] eqn:Ens.
-  2: { assert (mgr_disconnect m sid ns = m) as -> by (unfold mgr_disconnect; rewrite Ens; reflexivity).
-       split; [split; assumption|]. split; [|split; [congruence|reflexivity]].
-       intros ns' r' s' _. destruct (str_eqb ns ns' && str_eqb sid s') eqn:C; [|reflexivity].
+  2: { assert (mgr_disconnect m sid ns = disc_release m sid ns) as -> by (unfold mgr_disconnect; rewrite Ens; reflexivity).
+       split; [apply disc_release_wf; split; assumption|]. split; [|split; [congruence|reflexivity]].
+       intros ns' r' s' _. rewrite (mem_ext _ _ (disc_release_rooms m sid ns)).
+       destruct (str_eqb ns ns' && str_eqb sid s') eqn:C; [|reflexivity].
        apply andb_true_iff in C as [C1 C2]. apply str_eqb_eq in C1, C2. subst.
        unfold mem, look, nsmap, agetd. unfold ns_rooms in Ens. rewrite Ens. reflexivity. }
   assert (Hrm : rm = nsmap m ns) by (unfold nsmap, agetd; unfold ns_rooms in Ens; rewrite Ens; reflexivity).
